@@ -121,6 +121,17 @@ def focus_c15(proj, rng, steps):
     respell_protect(proj, rng)
     proj.put_file("unrelated.txt")
     proj.put_file(".gwf/logs/%s.stdout" % names[0])
+    if rng.random() < 0.35:
+        # a declared output that exists as a DIRECTORY (a tool that writes a folder): it cannot be unlinked, and
+        # that must not keep clean from deleting the outputs that come after it
+        import gen
+        outs = [os.path.normpath(o) for t in proj.targets for o in gen.flatten_shape(t["outputs"])]
+        if outs:
+            o = os.path.join(proj.dir, rng.choice(outs))
+            if os.path.isfile(o):
+                os.remove(o)
+            if not os.path.exists(o):
+                proj.put_file(os.path.join(os.path.relpath(o, proj.dir), "part-0"))
     for _ in range(rng.randint(1, 3)):
         pats = rand_patterns(rng, names) if rng.random() < 0.5 else []
         force = rng.random() < 0.6
